@@ -57,39 +57,106 @@ def check_g1(chk, cfg):
     chk.note_fn(fi)
     pw = [p for p in paths.enumerate_paths(fw, mw)]
     pi = [p for p in paths.enumerate_paths(fi, mi) if not paths.is_assert_fail_path(p)]
-    if len(pw) != 1 or len(pi) != 1:
-        chk.unknown("G1.init-agreement", "paths" + tag, "initialisers are expected to be straight-line (%d/%d paths)" % (len(pw), len(pi)))
+    if len(pw) != 1 or not pi:
+        chk.unknown("G1.init-agreement", "paths" + tag, "the static initialiser is expected to be straight-line (%d/%d paths)" % (len(pw), len(pi)))
         return
     vw, _ = field_values(pw[0], lambda r: r[0] == "alloca", mw, None)
-    vi, cleared = field_values(pi[0], lambda r: r == ("arg", 0), mi, None)
     tid = mi.di_by_name.get("messageq_t")
     if not tid:
         raise AnalysisError("anchor vanished: messageq_t")
     leaves = mi.di_leaves(tid)
-    total = mi.ditypes[mi.di_strip(tid)]["size"]
+    # the depth base_len / msg_len is the only quantity the two initialisers may branch on or compute with: evaluate both
+    # for every depth of the property's scope (1..32) - a finite, exhaustive domain - and compare field by field
+    from ..paths import eval_concrete, NoValue, cond_holds, subexprs
+
+    def depth_env(exprs, D, names):
+        env = {}
+        for top in exprs:
+            for x in subexprs(top):
+                if x[0] == "b" and x[1] == "udiv" and strip_casts(x[3]) == ("arg", names[0]) and strip_casts(x[4]) == ("arg", names[1]):
+                    env[x] = D
+        return env
     n = 0
+    bad_depth = {}
+    undecided = None
+    for D in range(1, 33):
+        sel = []
+        for p in pi:
+            env = depth_env([c for c, t, i in p.conds], D, (2, 3))
+            try:
+                if all(cond_holds(cd, env) for cd in p.conds):
+                    sel.append(p)
+            except NoValue as nv:
+                undecided = "messageq_init branches on %s, which is not a function of the depth" % fmt(nv.args[0])[:60]
+        if undecided:
+            break
+        if len(sel) != 1:
+            undecided = "%d paths of messageq_init for depth %d" % (len(sel), D)
+            break
+        vi, cleared = field_values(sel[0], lambda r: r == ("arg", 0), mi, None)
+        for path, off, size, mt in leaves:
+            a = vw.get(off)
+            b = vi.get(off)
+            ea = rename_args(a[0], {0: "basep", 1: "base_len", 2: "msg_len"}) if a else None
+            if b:
+                eb = rename_args(b[0], {1: "basep", 2: "base_len", 3: "msg_len"})
+            elif cleared is not None and cleared >= off + size:
+                eb = ("c", size * 8, 0)
+            else:
+                eb = None
+            key = "messageq_t.%s%s" % (path, tag)
+            if path in ("queue_len", "num_free"):
+                try:
+                    va = eval_concrete(a[0], depth_env([a[0]], D, (1, 2))) & ((1 << (8 * size)) - 1) if a else None
+                    vb = eval_concrete(b[0], depth_env([b[0]], D, (2, 3))) & ((1 << (8 * size)) - 1) if b else (0 if eb else None)
+                except NoValue as nv:
+                    undecided = "%s is not a function of the depth (%s)" % (path, fmt(nv.args[0])[:60])
+                    break
+                if va != vb or vb != D:
+                    bad_depth.setdefault(key, (D, va, vb))
+            else:
+                if not (ea is not None and eb is not None and ea == eb):
+                    bad_depth.setdefault(key, (D, fmt(ea) if ea else "<not initialised>", fmt(eb) if eb else "<not initialised>"))
+        if undecided:
+            break
+    if undecided:
+        # not a function of the depth alone: look for a concrete geometry on which messageq_init disagrees with the depth
+        # (a counterexample is a verdict; the absence of one on this grid is not)
+        for ml in (1, 2, 3, 6, 8, 70):
+            for D in (1, 2, 3, 31, 32):
+                for r in (0, ml - 1):
+                    bl = D * ml + r
+                    envi = {("arg", 2): bl, ("arg", 3): ml}
+                    try:
+                        sel = [p for p in pi if all(cond_holds(cd, envi) for cd in p.conds)]
+                        if len(sel) != 1:
+                            continue
+                        vi, cleared = field_values(sel[0], lambda r_: r_ == ("arg", 0), mi, None)
+                        for path, off, size, mt in leaves:
+                            if path in ("queue_len", "num_free") and off in vi:
+                                got = eval_concrete(vi[off][0], envi) & ((1 << (8 * size)) - 1)
+                                if got != D:
+                                    chk.ob("G1.depth", "messageq_t.%s%s" % (path, tag), False,
+                                           "with base_len=%d msg_len=%d (%d whole messages%s) messageq_init sets %s = %d" %
+                                           (bl, ml, D, " and %d spare bytes" % r if r else "", path, got), fi.loc, "messageq_init")
+                                    return
+                    except NoValue:
+                        continue
+        chk.unknown("G1.init-agreement", "messageq_init" + tag, undecided, fi.loc)
+        return
     for path, off, size, mt in leaves:
         n += 1
-        a = vw.get(off)
-        b = vi.get(off)
-        ea = rename_args(a[0], {0: "basep", 1: "base_len", 2: "msg_len"}) if a else None
-        if b:
-            eb = rename_args(b[0], {1: "basep", 2: "base_len", 3: "msg_len"})
-        elif cleared is not None and cleared >= off + size:
-            eb = ("c", size * 8, 0)
-        else:
-            eb = None
-        ok = ea is not None and eb is not None and ea == eb
-        chk.ob("G1.init-agreement", "messageq_t.%s%s" % (path, tag), ok,
-               "MESSAGEQ_VAR_INIT gives %s, messageq_init gives %s" %
-               (fmt(ea) if ea else "<not initialised>", fmt(eb) if eb else "<not initialised>"),
-               fi.loc, "messageq_init")
-        if path in ("queue_len", "num_free") and eb is not None:
-            core = strip_casts(eb)
-            ok2 = core == ("b", "udiv", core[2] if len(core) > 2 else 0, ("arg", "base_len"), ("arg", "msg_len"))
-            chk.ob("G1.depth", "messageq_t.%s%s" % (path, tag), ok2,
-                   "%s = %s must be floor(base_len / msg_len): trailing bytes that do not make up a whole message "
-                   "are never part of a slot, and all slots start free" % (path, fmt(eb)), fi.loc, "messageq_init")
+        key = "messageq_t.%s%s" % (path, tag)
+        bd = bad_depth.get(key)
+        chk.ob("G1.init-agreement", key, bd is None,
+               "MESSAGEQ_VAR_INIT and messageq_init give the same value for every depth 1..32" if bd is None else
+               "for depth %d MESSAGEQ_VAR_INIT gives %s, messageq_init gives %s" % bd, fi.loc, "messageq_init")
+        if path in ("queue_len", "num_free"):
+            chk.ob("G1.depth", key, bd is None,
+                   "%s == floor(base_len / msg_len) for every depth 1..32: trailing bytes that do not make up a whole message are "
+                   "never part of a slot, and all slots start free" % path if bd is None else
+                   "for depth %d %s is %s (static initialiser: %s): it must be the depth itself" % (bd[0], path, bd[2], bd[1]),
+                   fi.loc, "messageq_init")
     chk.expect("G1", "messageq_t fields compared" + tag, n, 7)
 
 
